@@ -40,7 +40,7 @@ def walks(n, L, depth, rng):
     return out
 
 
-def sig(scen, kind, detail):
+def sig(scen, kind, detail, rec=None):
     return {"family": "tcp-reassembly", "kind": kind}
 
 
